@@ -525,6 +525,21 @@ func (c *Ctx) constraintOn(x ssa.Value, cond ssa.Value, taken bool, p ir.BlockPa
 		return s, true
 	case *ssa.Call:
 		f := c.U.StaticCallee(y)
+		// strings.ContainsRune(<constant>, x): membership in the characters of the constant
+		if f != nil && f.String() == "strings.ContainsRune" && len(y.Call.Args) == 2 && sameRune(y.Call.Args[1], x) {
+			if cs, ok := ir.ConstString(ir.ResolveOnPath(y.Call.Args[0], p)); ok {
+				var s runeSet
+				for _, r := range cs {
+					s = append(s, [2]int64{int64(r), int64(r)})
+				}
+				s = s.norm()
+				if !taken {
+					s = s.complement()
+				}
+				return s, true
+			}
+			return nil, false
+		}
 		if f == nil || !c.U.IsRepoFunc(f) || len(y.Call.Args) != 1 || !sameRune(y.Call.Args[0], x) || depth > 4 {
 			return nil, false
 		}
